@@ -1109,8 +1109,13 @@ class FunctionVal:
         return outs
 
 
+FS = set()        # abstract file system: paths written by recording CodeGenerators and not removed since
+FS_LOG = []
+
+
 class CodeGeneratorVal:
     registry = []
+    path = None
 
     def __init__(self, filename, opts=None, node=None, module=None):
         self.filename = filename
@@ -1129,6 +1134,15 @@ class CodeGeneratorVal:
     def generate(self, prefix=None):
         self.generated.append(prefix)
         self.events.append(("generate", prefix))
+        # abstract file system: the C file (and its header) now exist under the prefix
+        pre = prefix if isinstance(prefix, str) else getattr(prefix, "s", None) if prefix is not None else ""
+        if isinstance(pre, str) and isinstance(self.filename, str):
+            path = (pre + self.filename).replace("//", "/")
+            self.path = path
+            FS.add(path)
+            FS_LOG.append(("write", path))
+            if isinstance(self.opts, dict) and self.opts.get("with_header") is True and "." in self.filename:
+                FS.add(path[:path.rfind(".")] + ".h")
         return "<generated>"
 
 
